@@ -9,22 +9,47 @@ use serde::{Deserialize, Serialize};
 pub struct MomentData {
     scale: f32,
     offset: f32,
+    word_size: u8,
     values: Vec<u8>,
 }
 
 impl MomentData {
     /// Create new moment data from fixed-point encoding.
     pub fn from_fixed_point(scale: f32, offset: f32, values: Vec<u8>) -> Self {
+        Self::from_fixed_point_with_word_size(scale, offset, 8, values)
+    }
+
+    /// Create new moment data from fixed-point encoding whose gates are `word_size` bits wide
+    /// (8, or 16 for big-endian two-byte gates).
+    pub fn from_fixed_point_with_word_size(
+        scale: f32,
+        offset: f32,
+        word_size: u8,
+        values: Vec<u8>,
+    ) -> Self {
         Self {
             scale,
             offset,
+            word_size,
             values,
+        }
+    }
+
+    /// The raw fixed-point value of each gate.
+    fn raw_values(&self) -> Vec<u16> {
+        if self.word_size == 16 {
+            self.values
+                .chunks_exact(2)
+                .map(|word| u16::from_be_bytes([word[0], word[1]]))
+                .collect()
+        } else {
+            self.values.iter().map(|&value| value as u16).collect()
         }
     }
 
     /// Values from this data moment corresponding to gates in the radial.
     pub fn values(&self) -> Vec<MomentValue> {
-        let copied_values = self.values.iter().copied();
+        let copied_values = self.raw_values().into_iter();
 
         if self.scale == 0.0 {
             return copied_values
